@@ -1861,6 +1861,14 @@ impl Translator {
                 }
             }
             IntrinsicOperation::ArraySet => {
+                let Some(SolvedType::Function(args, _)) = self.get_ty(mono, func_node.clone())
+                else {
+                    unreachable!()
+                };
+                // third arg is the element being stored; arrays of void use dummy values
+                if args[2] == SolvedType::Void {
+                    self.emit(st, Instr::PushNil(1));
+                }
                 self.emit(st, Instr::SetIndex(Reg::Top, Reg::Top));
             }
             IntrinsicOperation::ArrayPush => {
